@@ -157,7 +157,12 @@ def immutable(inp):
     except BaseException as e:  # noqa
         return {"fails": False, "expected": None, "observed": f"constructor raised {type(e).__name__}"}
     snap = (dict(m.__dict__), m.payload, m.identity, str(m), m.serialize())
-    names = list(m.__dict__) + ["brand_new", "_x"] + inp.get("names", [])
+    for bad in (b"\x00", None, p[:2] + b"\x00"):  # constructions that fail (or not) in between must not reopen an existing message
+        try:
+            RTCMMessage(payload=bad)
+        except BaseException:  # noqa
+            pass
+    names = list(m.__dict__) + ["brand_new", "_x", "payload", "identity", "ismsm"] + inp.get("names", [])
     for nm in names:
         for val in (0, getattr(m, nm, None), "x"):
             try:
@@ -570,6 +575,116 @@ def announced_length(inp):
     except KeyError as e:
         return {"fails": True, "expected": "every counter of the pinned length formula is an attribute of the message", "observed": f"missing {e}"}
     return {"fails": 8 * len(p) < need, "expected": f"rejected: {ident} with these counters needs {need} bits", "observed": f"accepted with {8 * len(p)} bits"}
+
+
+@check
+def signature(inp):
+    import re
+    from spec import api
+    m = re.search(r"\[(.*)\]", inp["obligation"])
+    for n, ok, d in api.signature_lemmas([m.group(1)])():
+        if n == inp["obligation"]:
+            return {"fails": not ok, "expected": d.get("pinned"), "observed": d.get("tree")}
+    return {"fails": False, "observed": "obligation no longer generated"}
+
+
+@check
+def positional_call(inp):
+    """Options passed by position (documented order: parse(message, validate, labelmsm); RTCMMessage(payload, labelmsm)) have
+    the effect of the same options passed by keyword."""
+    from pyrtcm import RTCMMessage, RTCMReader
+    msg = bytes.fromhex(inp["message"])
+    v, lm = inp.get("validate", 1), inp.get("labelmsm", 1)
+
+    def dig(r):
+        return (r[0], r[1].__dict__ if r[0] == "ok" else r[1])
+    a = dig(outcome(RTCMReader.parse, msg, validate=v, labelmsm=lm))
+    b = dig(outcome(RTCMReader.parse, msg, v, lm))
+    if a != b:
+        return {"fails": True, "expected": f"parse(message, {v}, {lm}) == parse(message, validate={v}, labelmsm={lm})",
+                "observed": str({k: (a[1].get(k), b[1].get(k)) for k in a[1] if a[1].get(k) != b[1].get(k)})[:300] if a[0] == b[0] == "ok" else (a[:2], b[:2])}
+    p = msg[3:-3]
+    a = dig(outcome(RTCMMessage, payload=p, labelmsm=lm))
+    b = dig(outcome(RTCMMessage, p, lm))
+    if a != b:
+        return {"fails": True, "expected": f"RTCMMessage(payload, {lm}) == RTCMMessage(payload=payload, labelmsm={lm})", "observed": "differ"}
+    return {"fails": False}
+
+
+@check
+def iteration_protocol(inp):
+    """C05/C02: an iterator obtained once with iter(reader) and driven with next() - continuing after every library exception -
+    yields exactly what repeated read() calls on an identical reader yield."""
+    import io
+    from pyrtcm import RTCMReader
+    data = bytes.fromhex(inp["data"])
+    q = inp.get("quitonerror", 2)
+
+    def collect(step, n):
+        out = []
+        for _ in range(n):
+            try:
+                raw, msg = step()
+            except StopIteration:
+                out.append("end")
+                break
+            except BaseException as e:  # noqa
+                if type(e).__name__ not in LIBS:
+                    out.append(("foreign", type(e).__name__))
+                    break
+                out.append(("raise", type(e).__name__))
+                continue
+            if raw is None:
+                out.append("end")
+                break
+            out.append(raw)
+        return out
+    n = len(data) + 10
+    r1 = RTCMReader(io.BytesIO(data), quitonerror=q)
+    want = collect(r1.read, n)
+    r2 = RTCMReader(io.BytesIO(data), quitonerror=q)
+    it = iter(r2)
+    got = collect(lambda: next(it), n)
+    r3 = RTCMReader(io.BytesIO(data), quitonerror=q)
+    got3 = collect(lambda: next(r3), n)
+
+    def show(x):
+        return [y.hex()[:16] if isinstance(y, bytes) else y for y in x][:8]
+    if got != want or got3 != want:
+        return {"fails": True, "expected": show(want), "observed": show(got if got != want else got3)}
+    return {"fails": False}
+
+
+@check
+def reader_history(inp):
+    """C13/C17: two readers alive at once, each with its own options, read alternately; each returns what it returns alone."""
+    import io
+    from pyrtcm import RTCMReader
+    datas = [bytes.fromhex(h) for h in inp["streams"]]
+    opts = inp["options"]
+
+    def digest(pair):
+        raw, msg = pair
+        return (raw, None if msg is None else (msg.identity, {k: v for k, v in msg.__dict__.items() if not k.startswith("_")}))
+    alone = []
+    for d, o in zip(datas, opts):
+        alone.append([digest(x) for x in RTCMReader(io.BytesIO(d), quitonerror=0, **o)])
+    readers = [RTCMReader(io.BytesIO(d), quitonerror=0, **o) for d, o in zip(datas, opts)]
+    got = [[] for _ in readers]
+    live = [True] * len(readers)
+    while any(live):
+        for i, r in enumerate(readers):
+            if live[i]:
+                pair = r.read()
+                if pair[0] is None:
+                    live[i] = False
+                else:
+                    got[i].append(digest(pair))
+    for i in range(len(readers)):
+        if got[i] != alone[i]:
+            return {"fails": True, "expected": f"reader {i} ({opts[i]}): {len(alone[i])} frames as when run alone",
+                    "observed": f"{len(got[i])} frames / different attributes when interleaved with another reader"}
+    return {"fails": False}
 
 
 @check
